@@ -312,6 +312,13 @@ func (s *Synchronizer) advanceView(syncInfo hotstuff.SyncInfo) {
 		s.logger.Debug("advanceView: No QC found in sync info, using TC if available")
 	}
 
+	// remember the highest verified timeout certificate: it is part of the sync info sent with
+	// timeouts and new-view messages, and it is what lets a replica that missed the timeouts of
+	// a view catch up with those that already left it.
+	if tc, ok := syncInfo.TC(); ok {
+		s.state.UpdateHighTC(tc)
+	}
+
 	if view < s.state.View() {
 		return
 	}
